@@ -205,12 +205,14 @@ func (sv *Solver) solve(text string, timeout time.Duration) solveResult {
 	quick := []cand{
 		{"z3-new", "z3-new", []string{"-T:1"}},
 		{"cvc5", "cvc5", []string{"--tlimit=1000", "--produce-models"}},
+		{"cvc5-enum", "cvc5", []string{"--tlimit=1000", "--produce-models", "--enum-inst"}},
 	}
 	full := []cand{
 		{"z3-new", "z3-new", []string{fmt.Sprintf("-T:%d", secs)}},
 		{"z3-new-intblast", "z3-new", []string{fmt.Sprintf("-T:%d", secs), "smt.bv.solver=2"}},
 		{"cvc5", "cvc5", []string{fmt.Sprintf("--tlimit=%d", secs*1000), "--produce-models"}},
 		{"cvc5-bvasint", "cvc5", []string{fmt.Sprintf("--tlimit=%d", secs*1000), "--produce-models", "--solve-bv-as-int=sum"}},
+		{"cvc5-enum", "cvc5", []string{fmt.Sprintf("--tlimit=%d", secs*1000), "--produce-models", "--enum-inst"}},
 		{"z3", "z3", []string{fmt.Sprintf("-T:%d", secs)}},
 	}
 	race := func(cs []cand, to time.Duration) solveResult {
@@ -350,7 +352,26 @@ func (sv *Solver) decide(fr *FuncResult) []*OblResult {
 	}
 	groups := map[string][]*Obligation{}
 	var order []string
+	// conjunctive goals are decided conjunct by conjunct (same hypotheses): much easier for the solvers
+	var split []*Obligation
 	for _, o := range fr.Obls {
+		if o.Canary || !strings.HasPrefix(o.Goal.S, "(and ") {
+			split = append(split, o)
+			continue
+		}
+		t := parseSx(o.Goal.S)
+		parts := flattenAnd(t, 2)
+		if len(parts) < 2 || len(parts) > 24 {
+			split = append(split, o)
+			continue
+		}
+		for _, pt := range parts {
+			c := *o
+			c.Goal = Term{S: pt.String(), So: SBool}
+			split = append(split, &c)
+		}
+	}
+	for _, o := range split {
 		if _, ok := groups[o.Name]; !ok {
 			order = append(order, o.Name)
 		}
@@ -477,4 +498,15 @@ func balanced(s string) string {
 		}
 	}
 	return s
+}
+
+func flattenAnd(n *sx, depth int) []*sx {
+	if n != nil && n.kids != nil && n.head() == "and" && depth > 0 {
+		var out []*sx
+		for _, k := range n.kids[1:] {
+			out = append(out, flattenAnd(k, depth-1)...)
+		}
+		return out
+	}
+	return []*sx{n}
 }
